@@ -2012,27 +2012,37 @@ def gen_case_else_stmt(node, code, codegen):
     code.add(('push%', -1))
 
 
+def gen_case_operands(value, code, codegen):
+    # Push the SELECT value and a CASE value for a comparison. Like
+    # any other comparison of two numbers, it is done in the wider of
+    # the two types: converting the CASE value to the type of the
+    # SELECT value would round it (CASE 9.75 would match 10) or
+    # overflow (CASE 100000 on an INTEGER value).
+    block = codegen.cur_blocks[-1]
+    var_type = block.var_type
+    cmp_type = var_type
+    if var_type.is_numeric and value.type.is_numeric:
+        for t in (expr.Type.DOUBLE, expr.Type.SINGLE, expr.Type.LONG):
+            if t in (var_type, value.type):
+                cmp_type = t
+                break
+
+    code.add((f'readl{var_type.type_char}', block.var_name))
+    if cmp_type != var_type:
+        code.add((f'conv{var_type.type_char}{cmp_type.type_char}',))
+    codegen.gen_code_for_node(value, code)
+    gen_code_for_conv(cmp_type, value, code, codegen)
+
+
 @QvmCodeGen.generator_for(stmt.SimpleCaseClause)
 def gen_simple_case_clause(node, code, codegen):
-    value_type = node.parent.parent.value.type
-
-    block = codegen.cur_blocks[-1]
-    type_char = block.var_type.type_char
-    code.add((f'readl{type_char}', block.var_name))
-    codegen.gen_code_for_node(node.value, code)
-    gen_code_for_conv(value_type, node.value, code, codegen)
+    gen_case_operands(node.value, code, codegen)
     code.add(('cmp',), ('eq',))
 
 
 @QvmCodeGen.generator_for(stmt.CompareCaseClause)
 def gen_compare_case_clause(node, code, codegen):
-    value_type = node.parent.parent.value.type
-
-    block = codegen.cur_blocks[-1]
-    type_char = block.var_type.type_char
-    code.add((f'readl{type_char}', block.var_name))
-    codegen.gen_code_for_node(node.value, code)
-    gen_code_for_conv(value_type, node.value, code, codegen)
+    gen_case_operands(node.value, code, codegen)
 
     op = {
         expr.Operator.CMP_EQ: 'eq',
@@ -2047,16 +2057,8 @@ def gen_compare_case_clause(node, code, codegen):
 
 @QvmCodeGen.generator_for(stmt.RangeCaseClause)
 def gen_range_case_clause(node, code, codegen):
-    value_type = node.parent.parent.value.type
-
-    block = codegen.cur_blocks[-1]
-    type_char = block.var_type.type_char
-    code.add((f'readl{type_char}', block.var_name))
-    codegen.gen_code_for_node(node.from_value, code)
-    gen_code_for_conv(value_type, node.from_value, code, codegen)
+    gen_case_operands(node.from_value, code, codegen)
     code.add(('cmp',), ('ge',))
-    code.add((f'readl{type_char}', block.var_name))
-    codegen.gen_code_for_node(node.to_value, code)
-    gen_code_for_conv(value_type, node.to_value, code, codegen)
+    gen_case_operands(node.to_value, code, codegen)
     code.add(('cmp',), ('le',))
     code.add(('and',))
